@@ -28,19 +28,21 @@ ACTIONS = ("Skip", "MarkOutlier", "OpenCluster", "Finish", "RelabelBorder", "Abs
 
 # lanes of model-checking configurations; the lanes run concurrently, one TLC worker each
 # (name, prints REPLAY lines, neighbour order of the model)
+PREDICT_ACTIONS = ("Vote", "Pick")
+
 LANES = {
     "quick": [
-        [("quick_any", True, "any")],
+        [("quick_any", True, "any"), ("predict:quick", False, "")],
         [("quick_asc", True, "asc")],
-        [("quick_2d", True, "asc")],
+        [("quick_2d", True, "asc"), ("quick_live", False, "any")],
     ],
     "thorough": [
         [("thorough_any", True, "any"), ("thorough_any2d", True, "any"), ("thorough_desc", False, "desc")],
-        [("thorough_asc7", False, "asc")],
-        [("thorough_line5_e1m2", False, "asc"), ("thorough_line5_e2m3", False, "asc")],
+        [("thorough_asc7", True, "asc")],
+        [("thorough_line5_e2m4", False, "asc"), ("thorough_line5_e2m3", False, "asc"), ("thorough_live", False, "any")],
         [("thorough_line5_e1m3", False, "asc"), ("thorough_line5_e1m4", False, "asc")],
         [("thorough_2d6a", False, "asc")],
-        [("thorough_2d6b", False, "asc")],
+        [("thorough_2d6b", False, "asc"), ("predict:quick", False, ""), ("predict:thorough", False, "")],
         [("thorough_2d5", True, "asc"), ("quick_asc", True, "asc")],
     ],
 }
@@ -49,14 +51,14 @@ MUST_HIT = ("Run", "FitOk", "Core", "Border", "Noise", "TwoClusters", "Provision
             "AmbiguousBorder", "ExactEps", "Duplicates", "BackendPair",
             "PredictEmpty", "PredictNoiseWins", "PredictTie", "PredictPlurality")
 
-RULE = ("Data sets: (a) every input of the Emit model-checking configurations (all sequences of 1..5 points on the "
-        "1-D lattice {0..3} and of 1..4 (quick) / 1..5 (thorough) points on the 2-D 3x2 lattice, every eps / minPts "
-        "of the configuration), replayed through the real DBSCAN with both back ends; (b) seeded random sets of "
-        "1..150 points in 1..4 dimensions (uniform lattice boxes, blobs, chains with steps exactly eps, duplicates, "
-        "bridges between two clusters, all-identical), eps from 'all noise' to 'one cluster', minPts 1..8, "
-        "Manhattan / Minkowski-1 / Euclidean, f64 / f32, power-of-two scales. A data set is non-trivial when it has "
-        "a border row or at least two clusters (decided by TLC from the definitions); distinct = distinct "
-        "(points, key, eps, minPts)")
+RULE = ("Data sets: (a) every input of the Emit model-checking configurations, replayed through the real DBSCAN with "
+        "both back ends -- quick: all sequences of 1..5 points on the 1-D lattice {0..3} and of 1..4 points on the 2-D "
+        "3x2 lattice; thorough: 1..7 points on {0..3}, 1..5 points on 3x2, 1..4 on 2x2, each with every eps / minPts "
+        "of its configuration; (b) seeded random sets of 1..150 points in 1..4 dimensions (uniform lattice boxes, "
+        "blobs, chains with steps exactly eps, duplicates, bridges between two clusters, all-identical), eps from "
+        "'all noise' to 'one cluster', minPts 1..8, Manhattan / Minkowski-1 / Euclidean, f64 / f32, power-of-two "
+        "scales. A data set is non-trivial when it has a border row or at least two clusters (decided by TLC from "
+        "the definitions); distinct = distinct (points, key, eps, minPts)")
 
 
 def case_key(d):
@@ -77,7 +79,12 @@ def variant(idx, key, thorough):
 def run_lane(ctx, lane):
     out = []
     for (name, emit, order) in lane:
-        r = ctx.tlc_mc("cluster/Dbscan.tla", "cluster/DbscanMC_%s.cfg" % name, workers=1, timeout=1500,
+        if name.startswith("predict:"):
+            # design model of predict: every density-based clustering of every small data set x every query row
+            ctx.tlc_mc("cluster/DbscanPredict.tla", "cluster/DbscanPredictMC_%s.cfg" % name.split(":")[1], workers=1,
+                       timeout=3000, must_cover=PREDICT_ACTIONS, tag="mc-predict-" + name.split(":")[1])
+            continue
+        r = ctx.tlc_mc("cluster/Dbscan.tla", "cluster/DbscanMC_%s.cfg" % name, workers=1, timeout=3000,
                        must_cover=ACTIONS, keep_prints=emit, tag="mc-" + name)
         if emit:
             run, prints = r
@@ -196,34 +203,43 @@ def run(ctx):
             got = (tuple(f["y"]), f["k"])
             if f["backend"] == "linear" and exp["asc"] and got not in exp["asc"]:
                 ctx.drift += 1
-                vlib.log("MODEL-DRIFT: linear back end, case %d: real %s, model(asc) %s" % (e["case"], got, sorted(exp["asc"])))
+                if ctx.drift <= 20:
+                    vlib.log("MODEL-DRIFT: linear back end, case %d: real %s, model(asc) %s" % (e["case"], got, sorted(exp["asc"])))
             elif exp["any"] and got not in exp["any"]:
                 ctx.drift += 1
-                vlib.log("MODEL-DRIFT: %s back end, case %d: real %s not among the model's labellings (any order)" % (f["backend"], e["case"], got))
+                if ctx.drift <= 20:
+                    vlib.log("MODEL-DRIFT: %s back end, case %d: real %s not among the model's labellings (any order)" % (f["backend"], e["case"], got))
 
     # ---- TLC validates everything that was recorded
     events = rep_events + rand_events
     for i, e in enumerate(events):
         e["run"] = i + 1
-    bads, hits, nontriv = validate(ctx, events, "all", 6 if th else 4)
+    bads, hits, nontriv = validate(ctx, events, "all", 8)
     for h in MUST_HIT:
         if hits.get(h, 0) == 0:
             raise vlib.ToolError("vacuous trace run: situation %s never exercised" % h)
 
-    seen = set()
-    for (i, clause) in bads:
+    # every failed clause becomes a report; for a listed known finding only the first few
+    # events per key go through ctx.report (it prints the KNOWN-FINDING line once), the rest
+    # are counted
+    known_keys = set(k.get("key") for k in ctx.known if k.get("status") == "known")
+    per_key = {}
+    for (i, clause) in sorted(set(bads)):
         e = events[i]
         key, what = key_and_what(e, clause)
-        if (key, i) in seen:
+        per_key[key] = per_key.get(key, 0) + 1
+        if key in known_keys and per_key[key] > 3:
             continue
-        seen.add((key, i))
         ctx.report(key, what, [e])
+    ctx.extra["failed_clause_events_per_key"] = dict((k, n) for k, n in per_key.items() if k in known_keys)
 
     ctx.evaluations = len(events)
     ctx.traces = sum(len(e["fits"]) for e in events)
     nt = set(case_key(events[r - 1]) for r in nontriv)
-    smalls = [e for e in rand_events if e["ev"] == "Run" and 6 <= len(e["pts"]) <= 12 and e["run"] in set(nontriv)]
-    ctx.samples = rep_events[len(rep_events) // 2:len(rep_events) // 2 + 1] + smalls[:2]
+    ntset = set(nontriv)
+    smalls = [e for e in rand_events if e["ev"] == "Run" and 6 <= len(e["pts"]) <= 12 and e["run"] in ntset]
+    lat = [e for e in rep_events[len(rep_events) // 2:] if e["run"] in ntset and len(e["pts"]) >= 4]
+    ctx.samples = lat[:1] + smalls[:2] + rep_events[:1]
     ctx.extra["situations_hit"] = hits
     ctx.extra["replayed_model_inputs"] = len(rep_events)
     ctx.extra["random_data_sets"] = len(rand_events)
@@ -241,21 +257,28 @@ def run(ctx):
 
 
 def replay(ctx, path):
-    """Re-validate the recorded events of a replay artefact, then re-execute them on the
-    current tree and validate again.  Exit 1 if either still fails."""
+    """Re-validate the recorded events of a replay artefact (information), then re-execute the
+    same inputs on the current tree and validate what the code returns now.  Exit 1 when the
+    re-executed events still fail a clause, 0 when they pass (e.g. after a fix)."""
     d = json.load(open(path))
-    rc = 0
     f = ctx.path("replay-recorded.ndjson")
     vlib.write_ndjson(f, d["events"])
     v, bads = ctx.tlc_trace("cluster/DbscanTrace.tla", "cluster/DbscanTrace.cfg", f, tag="trace-recorded")
     for b in bads:
-        print("REPLAY-BAD (recorded)", b)
-        rc = 1
+        print("REPLAY-RECORDED-BAD", b)
     ctx.build()
     g = ctx.path("replay-reexecuted.ndjson")
     ctx.harness("replay-file", path, g)
     v, bads = ctx.tlc_trace("cluster/DbscanTrace.tla", "cluster/DbscanTrace.cfg", g, tag="trace-reexecuted")
+    rc = 0
+    known_keys = set(k.get("key") for k in ctx.known if k.get("status") == "known")
+    redone = vlib.read_ndjson(g)
     for b in bads:
+        key, what = key_and_what(redone[b[0] - 1], b[3])
+        if key in known_keys:
+            print("REPLAY-KNOWN-FINDING (not counted)", b)
+            continue
         print("REPLAY-BAD (re-executed on the current tree)", b)
         rc = 1
+    print("replay: the re-executed events %s" % ("still FAIL" if rc else "pass on the current tree"))
     return rc
